@@ -477,7 +477,12 @@ func ToPairAlign(samIn, ref io.Reader, outpath string, wrap int, trimStart int, 
 
 	go groupSamRecords(samIn, cSH, cSR, cReadDone, cErr)
 
-	_ = <-cSH
+	// the reader reports a stream that has no parsable header (e.g. an empty one) on the error channel
+	select {
+	case <-cSH:
+	case err := <-cErr:
+		return err
+	}
 
 	go writePairwiseAlignment(outpath, wrap, cPairTrim, cWriteDone, cErr, omitRef)
 
